@@ -300,3 +300,57 @@ func H_RemoteBadBookmark() {
 	verif.Assert(rerr != nil && state.IsInvalidWatchBookmarkError(rerr), "the remote handle reports the same invalid-bookmark error")
 	verif.Cover("bad bookmark rejected")
 }
+
+// H_RemoteTail: a tail-events request means the same through the remote handle: a watch (on the kind,
+// aggregated or not, or on one resource) with a tail of 1..3 delivers the same first events as on the
+// wrapped state.
+func H_RemoteTail() {
+	tres.RegisterProto()
+	ctx, cancel := context.WithCancel(context.Background())
+	defer cancel()
+	backend := namespaced.NewState(inmem.Build)
+	direct := state.WrapCore(backend)
+	remoteCore, _ := c11.NewRemoteWithWatch(backend)
+	remote := state.WrapCore(remoteCore)
+	verif.Assert(direct.Create(ctx, tres.NewA(tres.NS, "a", "v")) == nil, "history")
+	for i := 0; i < 2; i++ {
+		r, err := direct.Get(ctx, resource.NewMetadata(tres.NS, tres.TypeA, "a", resource.VersionUndefined))
+		verif.Assert(err == nil, "history")
+		r.(*tres.A).TypedSpec().N++
+		verif.Assert(direct.Update(ctx, r) == nil, "history")
+	}
+	n := 1 + verif.Choose("tail", 3)
+	kind := resource.NewMetadata(tres.NS, tres.TypeA, "", resource.VersionUndefined)
+	p := resource.NewMetadata(tres.NS, tres.TypeA, "a", resource.VersionUndefined)
+	mode := verif.Choose("mode", 3)
+	collect := func(st state.State) []uint64 {
+		var out []uint64
+		single := make(chan state.Event, 8)
+		agg := make(chan []state.Event, 8)
+		switch mode {
+		case 0:
+			verif.Assert(st.Watch(ctx, p, single, state.WithTailEvents(n)) == nil, "watch with tail")
+		case 1:
+			verif.Assert(st.WatchKind(ctx, kind, single, state.WithKindTailEvents(n)) == nil, "kind watch with tail")
+		case 2:
+			verif.Assert(st.WatchKindAggregated(ctx, kind, agg, state.WithKindTailEvents(n)) == nil, "aggregated kind watch with tail")
+		}
+		verif.Quiesce()
+		for len(single) > 0 {
+			out = append(out, (<-single).Resource.Metadata().Version().Value())
+		}
+		for len(agg) > 0 {
+			for _, ev := range <-agg {
+				out = append(out, ev.Resource.Metadata().Version().Value())
+			}
+		}
+		return out
+	}
+	want := collect(direct)
+	got := collect(remote)
+	verif.Assert(len(want) == n && len(got) == len(want), "a tail of n over a history of 3 delivers n events, remotely as directly")
+	for i := range want {
+		verif.Assert(got[i] == want[i], "the remote tail delivers the same events in the same order")
+	}
+	verif.Cover("tails compared")
+}
